@@ -341,6 +341,14 @@ func (e *kvElection) attemptAcquire() error {
 	if e.acquireSem != nil {
 		e.acquireSem <- struct{}{}
 		defer func() { <-e.acquireSem }()
+
+		// Stopped while waiting for the previous attempt: issue no store operation.
+		e.mu.RLock()
+		running := e.running()
+		e.mu.RUnlock()
+		if !running {
+			return ErrAlreadyStopped
+		}
 	}
 
 	// A leader has nothing to acquire (attempts started while following can still be
@@ -582,6 +590,15 @@ func (e *kvElection) attemptPriorityTakeover(payloadBytes []byte) error {
 	payloadBytes, err = json.Marshal(takeoverPayload)
 	if err != nil {
 		return fmt.Errorf("failed to marshal takeover payload: %w", err)
+	}
+
+	// Stopped while the record was being read: issue no further store operations. (The
+	// takeover would depose a healthy leader in favour of an instance that is shutting down.)
+	e.mu.RLock()
+	running := e.running()
+	e.mu.RUnlock()
+	if !running {
+		return ErrAlreadyStopped
 	}
 
 	newRev, err := e.kv.Update(e.key, payloadBytes, entry.Revision())
